@@ -137,6 +137,7 @@ type runner struct {
 	silent     bool            // CONFIGURE commands get no answer
 	deaf       map[string]bool // tasks whose KILL gets no answer
 	deafAll    bool
+	started    map[int]bool
 	runMu      sync.Mutex
 	pendingRun map[string]bool // launched tasks whose TASK_RUNNING has not been sent yet
 	failNote   string
@@ -156,7 +157,14 @@ func (r *runner) fingerprint() string {
 	}
 	sort.Strings(ros)
 	st, ok := r.s.Consul.Get(fidKey)
-	return fmt.Sprintf("%d|%v|%v|%d|%s|%v", len(calls), ids, ros, len(r.s.Envman.Ids()), st, ok)
+	var envs []string
+	for _, id := range r.s.Envman.Ids() {
+		if e, err := r.s.Envman.Environment(id); err == nil && e != nil {
+			envs = append(envs, id.String()+":"+e.CurrentState())
+		}
+	}
+	sort.Strings(envs)
+	return fmt.Sprintf("%d|%v|%v|%v|%s|%v", len(calls), ids, ros, envs, st, ok)
 }
 
 // consistent: nothing is known to be still on its way (an answered KILL has terminated its task,
@@ -336,7 +344,10 @@ func (r *runner) apply(i int, op opJ) error {
 		}
 		r.envs[e] = id
 	case "start":
-		if id, ok := r.envs[op.E]; ok {
+		// (a second START of a RUNNING environment is refused and pushes it into ERROR: not a
+		// transition "that leaves ownership alone", so the harness never sends one)
+		if id, ok := r.envs[op.E]; ok && !r.started[op.E] {
+			r.started[op.E] = true
 			_, _ = r.s.Rpc.ControlEnvironment(bg, &pb.ControlEnvironmentRequest{Id: id.String(), Type: pb.ControlEnvironmentRequest_START_ACTIVITY})
 		}
 	case "destroy":
@@ -489,7 +500,7 @@ func runScript(in inputJ, workdir string) (out childOut) {
 	if !in.Failover {
 		fo = "0s"
 	}
-	r := &runner{rec: rec, taskIdx: map[string]int{}, envs: map[int]uid.ID{}, deaf: map[string]bool{}, pendingRun: map[string]bool{}}
+	r := &runner{rec: rec, taskIdx: map[string]int{}, envs: map[int]uid.ID{}, deaf: map[string]bool{}, started: map[int]bool{}, pendingRun: map[string]bool{}}
 	s, err := simcore.New(simcore.Options{
 		Plugins:     map[string]integration.NewFunc{"verif": vplugin.New(rec)},
 		WorkDir:     workdir,
